@@ -20,7 +20,10 @@ Inductive cty :=
 | CInt (w : Z) (sg : bool)   (* integer of width w, signed? ; w in {8,16,32,64} *)
 | CBool
 | CPtr (sz : Z)              (* pointer to an object type of size sz; value = address (64 bit) *)
-| CFlt.                      (* floating: value = an opaque code, arithmetic uninterpreted *)
+| CFlt                       (* floating: value = an opaque code, arithmetic uninterpreted *)
+| CFltW.                     (* a wider floating type used as an intermediate (std::common_type<T, long double>):
+                                same opaque codes, but its arithmetic is a DIFFERENT uninterpreted function: widening,
+                                operation in the wide format and rounding back need not equal the operation in T *)
 
 (* two's-complement normalisation: the value of type (w, sg) congruent to x modulo 2^w *)
 Definition norm (w : Z) (sg : bool) (x : Z) : Z :=
@@ -36,7 +39,7 @@ Definition ok (t : cty) (x : Z) : bool :=
   | CInt w sg => in_int w sg x
   | CBool => (x =? 0) || (x =? 1)
   | CPtr _ => in_int 64 false x
-  | CFlt => true
+  | CFlt | CFltW => true
   end.
 
 Definition int_width (w : Z) : bool := (w =? 8) || (w =? 16) || (w =? 32) || (w =? 64).
@@ -45,12 +48,15 @@ Definition ptr_ty (t : cty) : bool := match t with CPtr sz => 0 <? sz | _ => fal
 
 Definition is_integral (t : cty) : bool := match t with CInt _ _ | CBool => true | _ => false end.
 Definition unsigned_of (t : cty) : cty := match t with CInt w _ => CInt w false | _ => t end.
+(* std::common_type<T, long double>: a floating T is widened, anything else is not in the vocabulary *)
+Definition widen_flt (t : cty) : cty := match t with CFlt => CFltW | _ => t end.
 Definition ptrdiff_t : cty := CInt 64 true.
 Definition int_t : cty := CInt 32 true.
 
 (* parameters of the semantics: the uninterpreted floating operations, and whether signed overflow of plain
    arithmetic is treated as undefined (strict C++) or as wrap-around (the compiled code) *)
-Record sem := { fadd : Z -> Z -> Z; fsub : Z -> Z -> Z; feq : Z -> Z -> bool; strict : bool }.
+Record sem := { fadd : Z -> Z -> Z; fsub : Z -> Z -> Z; feq : Z -> Z -> bool; strict : bool;
+                faddw : Z -> Z -> Z; fsubw : Z -> Z -> Z   (* T -> wide, wide operation, -> T *) }.
 
 Definition cv := (cty * Z)%type.
 
@@ -60,7 +66,7 @@ Definition cast (t : cty) (v : cv) : cv :=
   | CInt w sg => (t, norm w sg (snd v))
   | CBool => (t, if snd v =? 0 then 0 else 1)
   | CPtr _ => (t, snd v)
-  | CFlt => (t, snd v)
+  | CFlt | CFltW => (t, snd v)
   end.
 
 Definition promote (t : cty) : cty :=
@@ -119,6 +125,12 @@ Definition binop (S : sem) (op : bop) (a b : cv) : option cv :=
       | BSub => Some (CFlt, fsub S (snd a) (snd b))
       | _ => None
       end
+  | CFltW, (CFlt | CFltW) | CFlt, CFltW =>       (* usual arithmetic conversions: the wider floating type *)
+      match op with
+      | BAdd => Some (CFltW, faddw S (snd a) (snd b))
+      | BSub => Some (CFltW, fsubw S (snd a) (snd b))
+      | _ => None
+      end
   | (CInt _ _ | CBool), (CInt _ _ | CBool) =>
       let t := common (promote (fst a)) (promote (fst b)) in
       int_bop S op t (snd (cast t a)) (snd (cast t b))
@@ -129,7 +141,7 @@ Definition binop (S : sem) (op : bop) (a b : cv) : option cv :=
 Definition ceq (S : sem) (a b : cv) : option bool :=
   match fst a, fst b with
   | CPtr _, CPtr _ => Some (snd a =? snd b)
-  | CFlt, CFlt => Some (feq S (snd a) (snd b))
+  | (CFlt | CFltW), (CFlt | CFltW) => Some (feq S (snd a) (snd b))
   | (CInt _ _ | CBool), (CInt _ _ | CBool) =>
       let t := common (promote (fst a)) (promote (fst b)) in
       Some (snd (cast t a) =? snd (cast t b))
